@@ -8,6 +8,10 @@
 //
 //@harness c23_eq_scalar_pairs complete "Null, Bool, Int, Float, DateTime, NodeId, String(empty) in every kind pair, symbolic payloads: result is Bool or Null, Null iff an operand is Null, symmetric, reflexive off NaN"
 //@harness c23_eq_numeric_trans complete "Int/Float in every kind triple, all 64-bit payloads (non-NaN): a=b & b=c => a=c"
+//@harness c23_eq_list_and3_b2_vv bounded(len<=2) "2-element lists [Int, Int] = [Int, Int], all payloads: list equality is the three-valued AND of the element equalities, symmetric, boolean or null"
+//@harness c23_eq_list_and3_b2_nv bounded(len<=2) "2-element lists [null, Int] = [Int, Int]: false wins over null whatever the position of the null"
+//@harness c23_eq_list_and3_b2_vn bounded(len<=2) "2-element lists [Int, null] = [Int, Int]"
+//@harness c23_eq_list_and3_b2_nn bounded(len<=2) "2-element lists [null, null] = [Int, Int]"
 //@harness c23_eq_list_b2 bounded(len<=2) tier=thorough "lists of <= 2 numeric/null elements: three-valued, symmetric, null element makes an otherwise equal comparison Null"
 #[cfg(kani)]
 mod verif_kani_c23_eq {
@@ -98,8 +102,8 @@ mod verif_kani_c23_eq {
             let mut kb = 0u8;
             while kb < 3 {
                 // [Int 7, x] vs [Int 7, y]
-                let l = vec![Value::Int(7), elem(ka, p)];
-                let r = vec![Value::Int(7), elem(kb, q)];
+                let l = [Value::Int(7), elem(ka, p)];
+                let r = [Value::Int(7), elem(kb, q)];
                 let lr = tri(cypher_equals_sequence(&l, &r));
                 let rl = tri(cypher_equals_sequence(&r, &l));
                 let xy = tri(cypher_equals(&l[1], &r[1]));
@@ -107,7 +111,7 @@ mod verif_kani_c23_eq {
                 assert!(lr == rl, "C23.eq.list.symmetric.b2");
                 assert!(lr == xy, "C23.eq.list.elementwise.b2");
                 // different lengths are never equal
-                let short = vec![Value::Int(7)];
+                let short = [Value::Int(7)];
                 assert!(tri(cypher_equals_sequence(&short, &r)) == 0, "C23.eq.list.length.b2");
                 core::mem::forget(l);
                 core::mem::forget(r);
@@ -118,4 +122,36 @@ mod verif_kani_c23_eq {
         }
         kani::cover!(true, "reach: end");
     }
+    fn and3(x: u8, y: u8) -> u8 { if x == 0 || y == 0 { 0 } else if x == 2 || y == 2 { 2 } else { 1 } }
+
+    // one harness per null pattern (which positions hold a null on the left); payloads symbolic
+    fn list_case(null0: bool, null1: bool) {
+        let (p1, p2, q1, q2): (i64, i64, i64, i64) = (kani::any(), kani::any(), kani::any(), kani::any());
+        // stack arrays, not Vec: a tag read back from the heap becomes symbolic for CBMC and drags every arm of
+        // cypher_equals (maps, nested lists) into the formula (measured: no verdict in 15 min with vec!)
+        let l = [if null0 { Value::Null } else { Value::Int(p1) }, if null1 { Value::Null } else { Value::Int(p2) }];
+        let r = [Value::Int(q1), Value::Int(q2)];
+        let lr = tri(cypher_equals_sequence(&l, &r));
+        let rl = tri(cypher_equals_sequence(&r, &l));
+        let e0 = if null0 { 2 } else if p1 == q1 { 1 } else { 0 };
+        let e1 = if null1 { 2 } else if p2 == q2 { 1 } else { 0 };
+        assert!(lr != 3, "C23.result.tri.eq_list.and3");
+        assert!(lr == and3(e0, e1), "C23.eq.list.three_valued_and.b2");
+        assert!(lr == rl, "C23.eq.list.symmetric.and3");
+        kani::cover!(lr == 0, "reach: definitely unequal");
+        core::mem::forget(l);
+        core::mem::forget(r);
+    }
+    #[kani::proof]
+    #[kani::unwind(4)]
+    fn c23_eq_list_and3_b2_vv() { list_case(false, false) }
+    #[kani::proof]
+    #[kani::unwind(4)]
+    fn c23_eq_list_and3_b2_nv() { list_case(true, false) }
+    #[kani::proof]
+    #[kani::unwind(4)]
+    fn c23_eq_list_and3_b2_vn() { list_case(false, true) }
+    #[kani::proof]
+    #[kani::unwind(4)]
+    fn c23_eq_list_and3_b2_nn() { list_case(true, true) }
 }
